@@ -195,98 +195,92 @@ class DiameterAssociation(object):
 
 
     def put_message_into_send_queue(self, msg: Type[DiameterMessage]) -> None:
-        self.lock.acquire()
+        with self.lock:
+            self.__is_connected()
+            self._send_messages.put(msg)
 
-        self.__is_connected()
-        self._send_messages.put(msg)
+            hop_by_hop = msg.header.hop_by_hop
 
-        hop_by_hop = msg.header.hop_by_hop
-
-        if isinstance(msg, DiameterRequest):
-            diameter_conn_logger.debug(f"[{hop_by_hop.hex()}] Diameter "\
-                                       f"Request have been put into "\
-                                       f"_send_messages Queue.")
-
-            key = msg.header.end_to_end.hex()
-            self.end_to_end_identifiers.append(key)
-
-        elif isinstance(msg, DiameterAnswer):
-            diameter_conn_logger.debug(f"[{hop_by_hop.hex()}] Diameter "\
-                                       f"Answer have been put into "\
-                                       f"_send_messages Queue.")
-
-        elif isinstance(msg, DiameterMessage):
-            if msg.header.is_request():
+            if isinstance(msg, DiameterRequest):
                 diameter_conn_logger.debug(f"[{hop_by_hop.hex()}] Diameter "\
-                                           f"Message (Request) have been put "\
-                                           f"into _send_messages Queue.")
+                                           f"Request have been put into "\
+                                           f"_send_messages Queue.")
 
                 key = msg.header.end_to_end.hex()
                 self.end_to_end_identifiers.append(key)
 
-            else:
+            elif isinstance(msg, DiameterAnswer):
                 diameter_conn_logger.debug(f"[{hop_by_hop.hex()}] Diameter "\
-                                           f"Message (Answer) have been put "\
-                                           f"into _send_messages Queue.")
-                
-        self.lock.release()
+                                           f"Answer have been put into "\
+                                           f"_send_messages Queue.")
+
+            elif isinstance(msg, DiameterMessage):
+                if msg.header.is_request():
+                    diameter_conn_logger.debug(f"[{hop_by_hop.hex()}] Diameter "\
+                                               f"Message (Request) have been put "\
+                                               f"into _send_messages Queue.")
+
+                    key = msg.header.end_to_end.hex()
+                    self.end_to_end_identifiers.append(key)
+
+                else:
+                    diameter_conn_logger.debug(f"[{hop_by_hop.hex()}] Diameter "\
+                                               f"Message (Answer) have been put "\
+                                               f"into _send_messages Queue.")
 
 
     def send_message_from_queue(self) -> None:
-        self.lock.acquire()
-        self.__is_connected()
+        with self.lock:
+            self.__is_connected()
 
-        diameter_conn_logger.debug(f"There is/are "\
-                                   f"{self._send_messages.qsize()} Diameter "\
-                                   f"Message(s) in the Sending Queue.")
+            diameter_conn_logger.debug(f"There is/are "\
+                                       f"{self._send_messages.qsize()} Diameter "\
+                                       f"Message(s) in the Sending Queue.")
 
-        stream = b""
-        while not self._send_messages.empty() and \
-                len(stream) <= SEND_BUFFER_MAXIMUM_SIZE:
-            msg = self._send_messages.get()
-            diameter_conn_logger.debug(f"[{msg.header.hop_by_hop.hex()}] "\
-                                       f"Preparing message to be sent.")
-
-            MESSAGE_LENGTH = len(msg.dump())
-
-            if MESSAGE_LENGTH > SEND_BUFFER_MAXIMUM_SIZE - len(stream):
-                self._send_messages.put(msg)
-                break
-
-            if isinstance(msg, DiameterRequest):
-                key = msg.header.hop_by_hop.hex()
-                self.pending_requests.update({key: msg})
+            stream = b""
+            while not self._send_messages.empty() and \
+                    len(stream) <= SEND_BUFFER_MAXIMUM_SIZE:
+                msg = self._send_messages.get()
                 diameter_conn_logger.debug(f"[{msg.header.hop_by_hop.hex()}] "\
-                                           f"Diameter Request have been "\
-                                           f"put into Pending Request Queue.")
+                                           f"Preparing message to be sent.")
+
+                MESSAGE_LENGTH = len(msg.dump())
+
+                if MESSAGE_LENGTH > SEND_BUFFER_MAXIMUM_SIZE - len(stream):
+                    self._send_messages.put(msg)
+                    break
+
+                if isinstance(msg, DiameterRequest):
+                    key = msg.header.hop_by_hop.hex()
+                    self.pending_requests.update({key: msg})
+                    diameter_conn_logger.debug(f"[{msg.header.hop_by_hop.hex()}] "\
+                                               f"Diameter Request have been "\
+                                               f"put into Pending Request Queue.")
     
-            stream += msg.dump()
+                stream += msg.dump()
 
-        if self.transport:
-            if not self.transport.is_write_mode():
-                diameter_conn_logger.debug("Transport Layer is not in WRITE "\
-                                           "mode, so we can send data stream.")
+            if self.transport:
+                if not self.transport.is_write_mode():
+                    diameter_conn_logger.debug("Transport Layer is not in WRITE "\
+                                               "mode, so we can send data stream.")
 
-                self.transport._set_selector_events_mask("rw", stream)
-            else:
-                diameter_conn_logger.debug("Transport Layer is in WRITE "\
-                                           "mode, so we cannot send data "\
-                                           "stream.")
+                    self.transport._set_selector_events_mask("rw", stream)
+                else:
+                    diameter_conn_logger.debug("Transport Layer is in WRITE "\
+                                               "mode, so we cannot send data "\
+                                               "stream.")
 
-                while not self._stop_threads and self.transport:
-                    self.transport.write_mode_on.wait()
-                    if not self.transport.is_write_mode():
-                        diameter_conn_logger.debug("Transport Layer is not in "\
-                                                   "WRITE mode again, so we "\
-                                                   "can send data stream.")
+                    while not self._stop_threads and self.transport:
+                        self.transport.write_mode_on.wait()
+                        if not self.transport.is_write_mode():
+                            diameter_conn_logger.debug("Transport Layer is not in "\
+                                                       "WRITE mode again, so we "\
+                                                       "can send data stream.")
     
-                        self.transport._set_selector_events_mask("rw", stream)
+                            self.transport._set_selector_events_mask("rw", stream)
                         
-                        # maybe include a verification here before the "break" if a given message has been sent from transport layer.
-                        break
-
-
-        self.lock.release()
+                            # maybe include a verification here before the "break" if a given message has been sent from transport layer.
+                            break
 
 
     def get_postprocess_recv_message(self):
